@@ -34,6 +34,8 @@ type Case struct {
 	IFSSet  bool     `json:"ifs_set"`
 	Args    []string `json:"args"`  // positional parameters $1...
 	Opts    string   `json:"opts"`  // value of $-
+	Glob    bool     `json:"glob"`  // pathname expansion is on (the f option is off); the check runs in an empty directory
+	EmptyN0 bool     `json:"empty_name0"` // $0 is the empty string
 	Other   string   `json:"other"` // value of the variable o used by WP{var}
 	Pid     int      `json:"-"`
 	Name0   string   `json:"name0"`
@@ -81,10 +83,8 @@ func (m *model) lookup(p string) (vals []string, set, null bool) {
 	case "?":
 		return []string{"0"}, true, false
 	case "-":
-		if c.Opts == "" {
-			return nil, false, true
-		}
-		return []string{c.Opts}, true, false
+		// always set (bash and dash agree), null when no option letter applies
+		return []string{c.Opts}, true, c.Opts == ""
 	case "$":
 		return []string{strconv.Itoa(c.Pid)}, true, false
 	case "!":
